@@ -463,6 +463,22 @@ func stdLadders(tier string) []gen.Ladder {
 	}
 }
 
+// shallowQuick drops, in the quick tier, the trie nodes that stand for 4-step paths (kept by
+// C01 and C03, which share the enumeration; the thorough tier always has them).
+func shallowQuick(tier string, us []gen.Unit) []gen.Unit {
+	if tier == "thorough" {
+		return us
+	}
+	out := us[:0:0]
+	for _, u := range us {
+		if len(u.L.Fixed) == 0 && len(u.Prefix) >= 3 {
+			continue
+		}
+		out = append(out, u)
+	}
+	return out
+}
+
 func unitsOf(ls []gen.Ladder) []gen.Unit {
 	var us []gen.Unit
 	for i := range ls {
